@@ -174,6 +174,13 @@ def session(binary, root, files, script, probe):
         r = s.request("textDocument/definition", {"textDocument": {"uri": uri}, "position": probe[1]})
         out["definition"] = r.get("result") if isinstance(r, dict) else None
         out["definition_error"] = r.get("error") if isinstance(r, dict) else "none"
+        pos = {"textDocument": {"uri": uri}, "position": probe[1]}
+        for what, method, extra in (("references", "textDocument/references", {"context": {"includeDeclaration": True}}),
+                                    ("prepare", "textDocument/prepareRename", {}), ("rename", "textDocument/rename", {"newName": "fresh_name_1"})):
+            if not s.alive():
+                break
+            r = s.request(method, dict(pos, **extra))
+            out[what] = (r.get("result"), bool(r.get("error"))) if isinstance(r, dict) else None
         out["alive"] = s.alive()
         out["diags"] = {os.path.basename(u): sorted((d["message"], json.dumps(d["range"], sort_keys=True)) for d in ds) for u, ds in s.diags.items()}
         out["texts"] = dict(texts)
